@@ -567,7 +567,7 @@ fn c10_parent(args: &Args) {
             case.plan.faults.retain(|_, f| matches!(f, anthem_simrt::plan::Fault::EarlyExit { .. }));
             let mut seen: Option<oracle::Violation> = None;
             for attempt in 0..3u64 {
-                if let Ok(x) = c10x::run_case(&bins, &case, &prep.reference, &prep.in_dir, &mut scratch, anthem_simrt::plan::mix2(seed, *at + attempt), false) {
+                if let Ok(x) = c10x::run_case(&bins, &case, &prep.reference, &prep.in_dir, &mut scratch, anthem_simrt::plan::mix2(seed, *at + attempt), false, false) {
                     if let Some(v) = x.violations.first() {
                         seen = Some(v.clone());
                         break;
@@ -578,7 +578,7 @@ fn c10_parent(args: &Args) {
                 Some(v) if x_reported < 2 => {
                     x_reported += 1;
                     new_violations += 1;
-                    let xr = c10x::XReplay { property: "C10".into(), engine: "E2".into(), seed, cross_case: *at, slow_case: false, case: case.clone(), violation: v.clone(), note: format!("the in-process worker died in this scenario ({why}); the same case through the shipped binary shows the violation") };
+                    let xr = c10x::XReplay { property: "C10".into(), engine: "E2".into(), seed, cross_case: *at, slow_case: false, large_case: false, case: case.clone(), violation: v.clone(), note: format!("the in-process worker died in this scenario ({why}); the same case through the shipped binary shows the violation") };
                     let path = replays_dir.join(format!("C10-{seed}-a{at}-{}.json", v.class));
                     std::fs::write(&path, serde_json::to_string_pretty(&xr).unwrap()).unwrap();
                     println!("violation (E2 run of a scenario in which the in-process worker died) class={} scenario={at}\n  {}", v.class, v.detail);
